@@ -31,6 +31,35 @@ Variable compute_sign : beam -> beam -> crystal_setup -> sign.
 Notation getter := (get_setter snell_internal compute_sign).
 Notation ideal := (ideal_set snell_internal compute_sign).
 
+(* as coded: the value is written as v * 1e12 (rad/s) *)
+Ltac head_of t := match t with ?f _ => head_of f | _ => t end.
+Ltac setter_eq' :=
+  intros s v;
+  match goal with |- ?lhs = _ => let h := head_of lhs in unfold h end;
+  cbv beta zeta iota delta [ideal_set put_crystal put_beam get_beam beam_with_theta beam_with_phi beam_with_frequency
+                            beam_with_waist si_of norm_angle norm_angle_signed c_light];
+  repeat first [rewrite Rdiv_one | rewrite Rmult_1_r]; reflexivity.
+
+Definition thz_entry_actual (e : string * (slot * unit_kind)) : Prop :=
+  snd (snd e) = UThz ->
+  exists f, getter (fst e) = Some f /\ forall s v, f s v = ideal (fst (snd e)) (v * 1e12) s.
+
+Lemma all_thz_actual : Forall thz_entry_actual spec_table.
+Proof.
+  unfold spec_table.
+  repeat (apply Forall_cons;
+          [ unfold thz_entry_actual; cbn [fst snd]; intros Hu;
+            first [ discriminate Hu | eexists; split; [reflexivity | setter_eq'] ] | ]).
+  apply Forall_nil.
+Qed.
+
+Lemma thz_actual p sl :
+  In (p, (sl, UThz)) spec_table ->
+  exists f, getter p = Some f /\ forall s v, f s v = ideal sl (v * 1e12) s.
+Proof.
+  intros Hin. pose proof all_thz_actual as H. rewrite Forall_forall in H. exact (H _ Hin eq_refl).
+Qed.
+
 Lemma C18_frequency_thz_refuted : forall p b, In (p, (SBeamFrequency b, UThz)) spec_table ->
   exists f, getter p = Some f /\ forall s,
     b_frequency (get_beam b (f s 200)) = 200 * 1e12 /\
@@ -40,7 +69,7 @@ Lemma C18_frequency_thz_refuted : forall p b, In (p, (SBeamFrequency b, UThz)) s
     assoc (config_key (SBeamFrequency b)) (config_num (ideal (SBeamFrequency b) (si_of UThz 200) s)) = Some 1498.9623.
 Proof.
   intros p b Hin.
-  destruct (thz_actual snell_internal compute_sign p _ Hin) as [f [Hf E]].
+  destruct (thz_actual p _ Hin) as [f [Hf E]].
   exists f. split; [exact Hf|]. intros s. rewrite E.
   assert (F1 : b_frequency (get_beam b (ideal (SBeamFrequency b) (200 * 1e12) s)) = 200 * 1e12)
     by (destruct s, b; reflexivity).
